@@ -7,7 +7,7 @@ RULE = ("(a) direct cases: decoders and the digest-truncation helper on arbitrar
         "(b) the correspondence corpora of C01-C09, C11, C13-C16, C18 (sampled in the quick tier) re-run on an ASan+UBSan+LSan build of the drivers (g++ -O1): any sanitizer report, abort or leak is a violation; "
         "classes = direct-case class, or (property, sanitizer) for the re-run corpora; non-trivial = reaches library code")
 CORPORA = [("C01", "drv_pure", 3), ("C02", "drv_pure", 2), ("C03", "drv_pure", 6), ("C04", "drv_pure", 3), ("C05", "drv_pure", 2), ("C06", "drv_pure", 3), ("C07", "drv_pure", 4),
-           ("C08", "drv_pure", 5), ("C09", "drv_pure", 2), ("C11", "drv_args", 4), ("C13", "drv_pure", 5), ("C14", "drv_pure", 3), ("C15", "drv_pure", 2), ("C16", "drv_heap", 1), ("C18", "drv_heap", 2)]
+           ("C08", "drv_pure", 5), ("C09", "drv_pure", 2), ("C11", "drv_args", 4), ("C13", "drv_pure", 2), ("C14", "drv_pure", 3), ("C15", "drv_pure", 2), ("C16", "drv_heap", 1), ("C18", "drv_heap", 2)]
 
 def gen(rng, tier):
     cases = []
@@ -56,6 +56,10 @@ def _run_san(exe, lines, rundir, tag):
         try: out, err = p.communicate(timeout=1500)
         except subprocess.TimeoutExpired: p.kill(); out, err = b"", b"TIMEOUT"
         err = err.decode(errors="replace"); outl = out.decode(errors="replace").split("\n")
+        # a write just past a string's last character stays inside its allocation (no sanitizer report): the drivers check the terminator themselves
+        for l, o in zip(part, outl):
+            if "STRING-NOT-TERMINATED" in o:
+                reports.append(dict(case=l[:400], report="a returned std::string is not terminated after its last character (a write outside [0, size()))", rc=0))
         bad = p.returncode != 0 or re.search(r"runtime error|AddressSanitizer|LeakSanitizer|UndefinedBehaviorSanitizer", err)
         if bad:
             done = len([l for l in outl if l])          # the case being executed when the report was raised
